@@ -70,10 +70,32 @@ def set_array_name_format(value):
     _array_name_format = value
 
 
-_any_dtype = object()
+class _Sentinel:
+    """A marker that is compared by identity. Pickled, copied and deep-copied by reference
+    (as the module-level name), so that it is still the same object when an annotation
+    class is serialised by value, as e.g. `cloudpickle` does for dynamically created classes.
+    """
 
-_anonymous_dim = object()
-_anonymous_variadic_dim = object()
+    def __init__(self, name: str):
+        self._name = name
+
+    def __repr__(self):
+        return self._name
+
+    def __reduce__(self):
+        return self._name
+
+    def __copy__(self):
+        return self
+
+    def __deepcopy__(self, memo):
+        return self
+
+
+_any_dtype = _Sentinel("_any_dtype")
+
+_anonymous_dim = _Sentinel("_anonymous_dim")
+_anonymous_variadic_dim = _Sentinel("_anonymous_variadic_dim")
 
 
 class _DimType(enum.Enum):
